@@ -12,6 +12,9 @@ def run(tier, chk):
     wd = vlib.workdir("X01")
     common.run_mc(chk, wd, "ClientLife", must_cover=("Clone", "Drop", "Driver"))
     k = 2 if tier == "quick" else 3
+    if tier != "quick":
+        # unbounded number of handles: the invariant behind ClosedOnlyWithoutHandles / OutcomeIffNone is inductive
+        common.run_apalache(chk, wd, "ClientLifeInd", [("Init", "IndInv", 0, "initiation"), ("IndInit", "IndInv", 1, "consecution")])
     scns = common.gen_scenarios(chk, wd, "ClientLife_Gen", cfg_text="SPECIFICATION Spec\nCONSTANT K = 2\nINVARIANT Emit\nCHECK_DEADLOCK FALSE\n", workers=4)
     if k == 3:
         scns += common.gen_scenarios(chk, wd, "ClientLife_Gen", cfg_text="SPECIFICATION Spec\nCONSTANT K = 3\nINVARIANT Emit\nCHECK_DEADLOCK FALSE\n", workers=4, label="gen3")
